@@ -15,7 +15,7 @@
 
 use crate::checks::c10;
 use crate::driver::Driver;
-use crate::model::flow::{self, Op};
+use crate::model::flow::{self, AOp, Op};
 use crate::model::intval::{INT_TYPES, IntTy};
 use crate::model::labels::{self, L};
 use crate::model::reflex;
@@ -181,6 +181,213 @@ fn flow_function(name: &str, forest: &[B]) -> String
 	let mut atom_lines = Vec::new();
 	body::render_lines(forest, &|a| flow_text(a).to_string(), 1, &mut lines, &mut atom_lines);
 	format!("fn {name}() -> i32\n{{\n\tvar x: i32 = 1;\n{}\n\treturn: x\n}}\n", lines.join("\n"))
+}
+
+// ---------------------------------------------------------------------------------------------
+// Family 8: loops over arrays. All bodies over ten atoms on an i32 `x`, a usize index `i` and an
+// array of three i32 elements that lives in one of six storages; bodies that index out of bounds
+// (undefined behaviour), do not terminate or have label errors are excluded by the models.
+
+const ARRAY_ATOMS: usize = 10;
+
+fn array_op(a: u8) -> AOp
+{
+	match a
+	{
+		0 => AOp::IncI,
+		1 => AOp::Store,
+		2 => AOp::AddElem,
+		3 => AOp::Dbl,
+		4 => AOp::IfAtEndGoto(0),
+		5 => AOp::Goto(0),
+		6 => AOp::Label(0),
+		7 => AOp::Loop,
+		8 => AOp::Compound,
+		9 => AOp::Print,
+		// the two atoms of the loop skeleton (not enumerated)
+		10 => AOp::IfAtEndGoto(1),
+		_ => AOp::Label(1),
+	}
+}
+
+/// A body inside the loop skeleton `{ if i == |a| goto end; BODY i = i + 1; loop; } end:`, which runs
+/// the body once per element.
+fn in_loop_skeleton(body: &[B]) -> Vec<B>
+{
+	let mut inner = vec![B::Atom(10)];
+	inner.extend(body.iter().cloned());
+	inner.push(B::Atom(0));
+	inner.push(B::Atom(7));
+	vec![B::Block(inner), B::Atom(11)]
+}
+
+/// (name, prelude, parameter list, local declarations, element path with IDX, length expression,
+/// declaration in the caller, argument, caller's element path with IDX, guard expression, guard value)
+struct ArrayStorage
+{
+	name: &'static str,
+	prelude: &'static str,
+	params: &'static str,
+	locals: &'static str,
+	path: &'static str,
+	len: &'static str,
+	caller_decl: &'static str,
+	arg: &'static str,
+	caller_path: &'static str,
+	guard: &'static str,
+	guard_value: &'static str,
+}
+
+const HOLDER: &str = "struct Holder\n{\n\tpad: i32,\n\tarr: [3]i32,\n\ttail: i32,\n}\n";
+
+const ARRAY_STORAGES: [ArrayStorage; 6] = [
+	ArrayStorage { name: "local array", prelude: "", params: "", locals: "\tvar a: [3]i32 = [10, 20, 30];\n", path: "a[IDX]", len: "|a|", caller_decl: "", arg: "", caller_path: "", guard: "7i32", guard_value: "7" },
+	ArrayStorage { name: "slice pointer parameter", prelude: "", params: "a: &[]i32", locals: "", path: "a[IDX]", len: "|a|", caller_decl: "\tvar cK: [3]i32 = [10, 20, 30];\n", arg: "&cK", caller_path: "cK[IDX]", guard: "7i32", guard_value: "7" },
+	ArrayStorage { name: "pointer to a sized array parameter", prelude: "", params: "a: &[3]i32", locals: "", path: "a[IDX]", len: "|a|", caller_decl: "\tvar cK: [3]i32 = [10, 20, 30];\n", arg: "&cK", caller_path: "cK[IDX]", guard: "7i32", guard_value: "7" },
+	ArrayStorage { name: "array member of a local structure", prelude: HOLDER, params: "", locals: "\tvar s: Holder = Holder { pad: 7, arr: [10, 20, 30], tail: 9 };\n", path: "s.arr[IDX]", len: "|s.arr|", caller_decl: "", arg: "", caller_path: "", guard: "s.pad * 10 + s.tail", guard_value: "79" },
+	ArrayStorage { name: "array member behind a pointer to a structure", prelude: HOLDER, params: "h: &Holder", locals: "", path: "h.arr[IDX]", len: "|h.arr|", caller_decl: "\tvar cK: Holder = Holder { pad: 7, arr: [10, 20, 30], tail: 9 };\n", arg: "&cK", caller_path: "cK.arr[IDX]", guard: "h.pad * 10 + h.tail", guard_value: "79" },
+	ArrayStorage { name: "second row of a local matrix", prelude: "", params: "", locals: "\tvar m: [3][3]i32 = [[1, 2, 3], [10, 20, 30], [4, 5, 6]];\n", path: "m[1][IDX]", len: "|m[1]|", caller_decl: "", arg: "", caller_path: "", guard: "m[0][2] * 10 + m[2][0]", guard_value: "34" },
+];
+
+fn array_text(a: u8, st: &ArrayStorage) -> String
+{
+	let e = st.path.replace("IDX", "i");
+	match a
+	{
+		0 => "i = i + 1;".to_string(),
+		1 => format!("{e} = x;"),
+		2 => format!("x = x + {e};"),
+		3 => "x = x * 2;".to_string(),
+		4 => format!("if i == {} goto A;", st.len),
+		5 => "goto A;".to_string(),
+		6 => "A:".to_string(),
+		7 => "loop;".to_string(),
+		8 => format!("if {e} > 15 {{ x = x + 1; }} else {{ {e} = {e} + x; }}"),
+		9 => "print!(x, \" \");".to_string(),
+		10 => format!("if i == {} goto end;", st.len),
+		_ => "end:".to_string(),
+	}
+}
+
+fn array_labels(forest: &[B]) -> Vec<L>
+{
+	forest
+		.iter()
+		.map(|s| match s
+		{
+			B::Atom(a) => match array_op(*a)
+			{
+				AOp::IfAtEndGoto(l) | AOp::Goto(l) => L::Goto(l, 0),
+				AOp::Label(l) => L::Label(l, 0),
+				_ => L::Other,
+			},
+			B::Block(inner) => L::Block(array_labels(inner)),
+		})
+		.collect()
+}
+
+fn array_loops_ok(forest: &[B], top: bool) -> bool
+{
+	for (i, s) in forest.iter().enumerate()
+	{
+		match s
+		{
+			B::Atom(7) =>
+			{
+				if top || i + 1 != forest.len()
+				{
+					return false;
+				}
+			}
+			B::Block(inner) =>
+			{
+				if !array_loops_ok(inner, false)
+				{
+					return false;
+				}
+			}
+			_ =>
+			{}
+		}
+	}
+	true
+}
+
+/// The function for one body and the statements of `main` that call it.
+fn array_function(k: usize, si: usize, forest: &[B]) -> (String, String)
+{
+	let st = &ARRAY_STORAGES[si];
+	let mut lines = Vec::new();
+	let mut atom_lines = Vec::new();
+	body::render_lines(forest, &|a| array_text(a, st), 1, &mut lines, &mut atom_lines);
+	let p = |idx: usize| st.path.replace("IDX", &idx.to_string());
+	let function = format!(
+		"fn f{k}({}) -> i32\n{{\n\tvar x: i32 = 1;\n\tvar i: usize = 0;\n{}{}\n\tprint!(\"=\", x, \" \", i, \" \", {}, \" \", {}, \" \", {}, \" \", {}, \"\\n\");\n\treturn: x\n}}\n",
+		st.params,
+		st.locals,
+		lines.join("\n"),
+		p(0),
+		p(1),
+		p(2),
+		st.guard
+	);
+	let kk = k.to_string();
+	let mut call = st.caller_decl.replace('K', &kk);
+	call.push_str(&format!("\tvar r{k}: i32 = f{k}({});\n", st.arg.replace('K', &kk)));
+	if st.caller_path.is_empty()
+	{
+		call.push_str(&format!("\tprint!(r{k}, \"\\n\");\n"));
+	}
+	else
+	{
+		let c = |idx: usize| st.caller_path.replace('K', &kk).replace("IDX", &idx.to_string());
+		call.push_str(&format!("\tprint!(r{k}, \" \", {}, \" \", {}, \" \", {}, \"\\n\");\n", c(0), c(1), c(2)));
+	}
+	(function, call)
+}
+
+fn run_array_batch(batch: &[(Vec<B>, flow::ArrayRun)], si: usize, spec: &Value, w: &mut WorkerCtx)
+{
+	let st = &ARRAY_STORAGES[si];
+	let mut text = String::from(st.prelude);
+	let mut main = String::from("fn main() -> u8\n{\n");
+	let mut expected_f = Vec::new();
+	for (k, (forest, run)) in batch.iter().enumerate()
+	{
+		let (function, call) = array_function(k, si, forest);
+		text.push_str(&function);
+		main.push_str(&call);
+		let mut e = String::new();
+		for p in &run.prints
+		{
+			e.push_str(&format!("{p} "));
+		}
+		e.push_str(&format!("={} {} {} {} {} {}\n", run.x, run.i, run.a[0], run.a[1], run.a[2], st.guard_value));
+		if st.caller_path.is_empty()
+		{
+			e.push_str(&format!("{}\n", run.x));
+		}
+		else
+		{
+			e.push_str(&format!("{} {} {} {}\n", run.x, run.a[0], run.a[1], run.a[2]));
+		}
+		expected_f.push(e);
+	}
+	main.push_str("\treturn: 3\n}\n");
+	text.push_str(&main);
+	let expected: String = expected_f.concat();
+	w.result.states += batch.len() as u64;
+	let forests: Vec<Value> = batch.iter().map(|b| crate::checks::c04::encode_forest(&b.0)).collect();
+	let class = format!("array loops:{}", st.name);
+	let ok = expect_output(&text, &expected, 3, &class, json!({"family": "array loops", "n": spec["n"], "first": spec["first"], "storage": si, "skeleton": spec["skeleton"], "batch_forests": forests}), w);
+	if ok
+	{
+		w.result.validated += batch.len() as u64 - 1;
+		if let Some(b) = batch.iter().find(|b| b.1.i == 3 && b.1.a != [10, 20, 30])
+		{
+			w.result.sample(|| json!({"family": "array loops", "storage": st.name, "function": array_function(0, si, &b.0).0, "x": b.1.x, "a": b.1.a}));
+		}
+	}
 }
 
 // ---------------------------------------------------------------------------------------------
@@ -643,6 +850,30 @@ pub fn drive(d: &mut Driver)
 			jobs.push(json!({"family": "control flow", "n": n, "first": first}));
 		}
 	}
+	// family 8: loops over arrays
+	let narr = if quick { 3 } else { 4 };
+	{
+		let space = BodySpace::new(ARRAY_ATOMS);
+		for si in 0..ARRAY_STORAGES.len()
+		{
+			// the quick tier explores one statement more for the local array
+			let nmax = if quick && si == 0 { narr + 1 } else { narr };
+			for skeleton in [false, true]
+			{
+				for n in 0..=(if skeleton { narr } else { nmax })
+				{
+					for first in space.first_choices(n, 2)
+					{
+						jobs.push(json!({"family": "array loops", "n": n, "first": first, "storage": si, "skeleton": skeleton}));
+					}
+				}
+			}
+		}
+	}
+	d.bound("family 8: atoms", json!((0..ARRAY_ATOMS as u8).map(|a| array_text(a, &ARRAY_STORAGES[0])).collect::<Vec<_>>()));
+	d.bound("family 8: storages of the array", json!(ARRAY_STORAGES.iter().map(|s| s.name).collect::<Vec<_>>()));
+	d.bound("family 8: max statements (local array one more in the quick tier), nesting depth", json!([narr, 2]));
+	d.bound("family 8: every body also inside the loop skeleton", json!("{ if i == |a| goto end; BODY i = i + 1; loop; } end:"));
 	d.bound("family 2: atoms", json!((0..FLOW_ATOMS as u8).map(flow_text).collect::<Vec<_>>()));
 	d.bound("family 2: max statements, nesting depth", json!([nflow, 2]));
 	// family 3
@@ -965,6 +1196,54 @@ pub fn work(spec: &Value, w: &mut WorkerCtx)
 			if !batch.is_empty()
 			{
 				run_flow_batch(&batch, &spec, w);
+			}
+		}
+		"array loops" =>
+		{
+			let n = spec["n"].as_u64().unwrap() as usize;
+			let si = spec["storage"].as_u64().unwrap() as usize;
+			let first = spec["first"].as_str().unwrap().to_string();
+			let mut space = BodySpace::new(ARRAY_ATOMS);
+			let mut all: Vec<Vec<B>> = Vec::new();
+			space.for_each(n, 2, &first, &mut |forest| {
+				all.push(forest.to_vec());
+			});
+			let mut batch: Vec<(Vec<B>, flow::ArrayRun)> = Vec::new();
+			let skeleton = spec["skeleton"].as_bool().unwrap_or(false);
+			for forest in all
+			{
+				w.result.transitions += 1;
+				if !array_loops_ok(&forest, true)
+				{
+					continue;
+				}
+				let forest = if skeleton { in_loop_skeleton(&forest) } else { forest };
+				let lv = labels::judge(&array_labels(&forest), &[]);
+				if !lv.illegal_gotos.is_empty() || !lv.clashing_labels.is_empty()
+				{
+					w.result.count("array bodies with label errors (excluded, C04's subject)", 1);
+					continue;
+				}
+				match flow::run_array(&forest, &array_op, [10, 20, 30], 400, 40)
+				{
+					None =>
+					{
+						w.result.count("array bodies that index out of bounds, do not terminate or are very long (excluded)", 1);
+					}
+					Some(run) =>
+					{
+						batch.push((forest, run));
+						if batch.len() == 40
+						{
+							run_array_batch(&batch, si, &spec, w);
+							batch.clear();
+						}
+					}
+				}
+			}
+			if !batch.is_empty()
+			{
+				run_array_batch(&batch, si, &spec, w);
 			}
 		}
 		"data access" | "layout" =>
